@@ -8,6 +8,7 @@
 //   M3  m.try_inverse() on a square matrix returns Some(inv) only if inv is the two-sided inverse of m
 //   M4  if inv is the inverse of m (n x n) and b is n x k then p = inv * b is n x k and  m * p == b  entrywise:
 //       forall r, c.  sum_{j<n} m[r][j] * p[j][c] == b[r][c]      (real matrix algebra: m (m^-1 b) = b)
+//   M5  m.determinant() returns det(m), an uninterpreted function of the matrix
 pub open spec fn pw(x: real, k: int) -> real
     decreases k
 { if k <= 0 { 1real } else { x * pw(x, k - 1) } }
@@ -61,6 +62,14 @@ impl DMatrix {
     pub fn vget(&self, r: usize, c: usize) -> (e: f64)
         requires r < self.nrows(), c < self.ncols()
         ensures rv(e) == self.at(r as int, c as int)
+    { unimplemented!() }
+    // M5  m.determinant() is SOME function of the matrix (nothing is assumed about its value: in particular not that a small
+    //     determinant means a singular matrix)
+    pub uninterp spec fn det(&self) -> real;
+    #[verifier::external_body]
+    pub fn determinant(&self) -> (d: f64)
+        requires self.nrows() == self.ncols()
+        ensures rv(d) == self.det()
     { unimplemented!() }
     #[verifier::external_body]
     pub fn try_inverse(self) -> (r: Option<DMatrix>)
